@@ -44,6 +44,8 @@ FIELDS = {
     "selfref": ["a: bytes", "b: Optional[datetime.date] = None", "s: Optional[Self] = None"],
     # C is a subclass of a class with a Self field and adds a field of its own
     "selfsub": ["t: int = 0"],
+    # a specialised generic mixin class nested in C (units keyed by a hash of the type arguments)
+    "generic": ["g: GBox[datetime.date]", "h: Optional[GBox[bytes]] = None"],
 }
 
 
@@ -57,7 +59,8 @@ class FPoint:
     call_dialect: str = "none"  # none | strategy | options
 
     def label(self):
-        return f"[{self.mixin}/{self.mode}/{self.fields}{'/D' if self.dialect_support else ''}{'/nested' if self.nested else ''}{'/call=' + self.call_dialect if self.call_dialect != 'none' else ''}]"
+        tag = "{generic+D}" if (self.fields == "generic" and self.dialect_support) else ""
+        return f"[{self.mixin}/{self.mode}/{self.fields}{'/D' if self.dialect_support else ''}{'/nested' if self.nested else ''}{'/call=' + self.call_dialect if self.call_dialect != 'none' else ''}]{tag}"
 
 
 def class_source(p: FPoint):
@@ -81,6 +84,10 @@ def class_source(p: FPoint):
     fields = list(FIELDS[p.fields])
     if p.nested or p.mode == "postponed":
         fields.append("n: Optional['Later'] = None")
+    if p.fields == "generic":
+        src += ["_GT = TypeVar('_GT')", "@dataclass", f"class GBox(Generic[_GT], {mixname}):", "    v: _GT"]
+        if cfg:
+            src += ["    class Config(BaseConfig):"] + ["        " + c for c in cfg]
     if p.fields == "selfsub":
         src += ["@dataclass", f"class Node({mixname}):", "    a: bytes = b''", "    s: Optional[Self] = None"]
         if cfg:
@@ -112,6 +119,8 @@ def sample_instance(mod, p: FPoint):
         kw = dict(a=mod.H1(1), b=None, c={"k": 1})
     if p.nested or p.mode == "postponed":
         kw["n"] = mod.Later(b"z", None)
+    if p.fields == "generic":
+        kw = dict(g=mod.GBox(datetime.date(2020, 1, 2)), h=mod.GBox(b"xy"))
     if p.fields == "selfsub":
         kw = dict(a=b"ab", t=1, s=mod.C(a=b"cd", t=2, s=mod.C(a=b"ef", t=3)))
     if p.fields == "selfref":
@@ -148,11 +157,17 @@ def declared_params(cls):
     return out
 
 
+import re as _re
+
+_HASH_SUFFIX = _re.compile(r"_[0-9a-f]{32}$")
+
+
 def unit_identity(name):
     """method name -> (direction, format, has_coder) per the documented naming scheme (S7)"""
     if not (name.startswith("__mashumaro_") and name.endswith("__")):
         return None
     core = name[len("__mashumaro_"):-2]
+    core = _HASH_SUFFIX.sub("", core)  # dict-form units of a specialised generic class carry a hash of the type arguments
     for d in ("to", "from"):
         if core == f"{d}_dict":
             return (d, "dict", False)
@@ -239,6 +254,12 @@ def stub_obligations(record, cls):
         fm = kw.get("first_method")
         if fm != ("val", fn.name):
             problems.append(f"{where}: first_method is {fm}, not {fn.name!r}")
+        # the slot is (class, type arguments, method, format, dialect): a specialised unit of a generic class
+        # has to be rebuilt for its own type arguments, otherwise another slot is filled and this one stays a stub
+        ta = ev(call.args[1]) if len(call.args) > 1 else kw.get("type_args", ("val", ()))
+        got_ta = tuple(ta[1]) if ta[0] == "val" and ta[1] is not None else ta
+        if got_ta != tuple(b.initial_type_args or ()):
+            problems.append(f"{where}: rebuilt with type arguments {got_ta}, the unit was compiled for {tuple(b.initial_type_args or ())}")
         if kw.get("format_name", ("val", "dict")) != ("val", b.format_name):
             problems.append(f"{where}: format_name {kw.get('format_name')} differs from the unit's {b.format_name!r}")
         dd = kw.get("default_dialect", ("val", None))
@@ -330,6 +351,14 @@ def nested_call(owner, fmt, dialect_value):
     enabled it (C08 rule)"""
     def call(gen, t, x, direction):
         suffix = "" if fmt == "dict" else f"_{fmt}"
+        args = typing.get_args(t)
+        if args:
+            # a specialised generic class: the unit compiled for these type arguments (named by the library's
+            # own key function, whose injectivity is S6's subject)
+            from mashumaro.core.meta.helpers import hash_type_args
+
+            suffix += f"_{hash_type_args(args)}"
+            t = typing.get_origin(t)
         flags = ""
         if _has_dialect_support(owner) and _has_dialect_support(t):
             flags = f"dialect={gen.bind(dialect_value, 'dialect') if dialect_value is not None else 'None'}"
@@ -451,7 +480,7 @@ def g7_task(payload):
         obs.append(dict(id=f"{pid}.G7{label}/first_call", status="proved" if not first else "refuted", unit="native first calls of every entry point",
                         detail="; ".join(first)[:700], witness=({"confirmed": True, "source": src, "why": first[0]} if first else None)))
         recs = [r for r in rec.records if r.seq >= recs0[0].seq] if recs0 else []
-        mine = [r for r in recs if r.builder is not None and r.builder.cls in (cls, getattr(mod, "Later", None))]
+        mine = [r for r in recs if r.builder is not None and r.builder.cls in (cls, getattr(mod, "Later", None), getattr(mod, "GBox", None))]
         # ---- params
         decl = {}
         probs = []
@@ -489,6 +518,11 @@ def g7_task(payload):
             ncalls += nc
             probs += units.slot_obligations(r)
             probs += units.owned_call_problems(r)
+        ta_probs = [x for x in probs if "rebuilt with type arguments" in x]
+        probs = [x for x in probs if "rebuilt with type arguments" not in x]
+        obs.append(dict(id=f"{pid}.G7{label}/stub_type_args", status="proved" if not ta_probs else "refuted", unit=f"{ncalls} embedded rebuild calls in {len(mine)} texts",
+                        detail="; ".join(sorted(set(ta_probs)))[:900],
+                        witness=({"confirmed": bool(first), "source": src, "why": (first[0] if first else sorted(set(ta_probs))[0])} if ta_probs else None)))
         obs.append(dict(id=f"{pid}.G7{label}/stubs", status="proved" if not probs else "refuted", unit=f"{ncalls} embedded rebuild calls in {len(mine)} texts",
                         detail="; ".join(sorted(set(probs)))[:900],
                         witness=({"confirmed": bool(first), "source": src, "why": (first[0] if first else sorted(set(probs))[0])} if probs else None)))
@@ -658,6 +692,7 @@ def lattice(tier):
                     pts.append(FPoint(mixin, mode, ds, "selfref", False, "strategy" if ds else "none"))
                     if not ds:
                         pts.append(FPoint(mixin, mode, ds, "selfsub", False, "none"))
+                    pts.append(FPoint(mixin, mode, ds, "generic", False, "strategy" if ds else "none"))
     seen, out = set(), []
     for p in pts:
         if p.label() not in seen:
